@@ -316,6 +316,8 @@ def run_scenario(base: Base, sc: dict, idx: int) -> dict:
             log.add("image", hashlib.sha1(F).hexdigest())
             out = core.stage(st_request, base.cfg, base.knobs, dd, None, False)
             v = base.judge(out, F, dd, kind)
+        elif kind == "shared-dir":
+            return run_shared_dir(base, sc, d, log, stats)
         elif kind == "history":
             return run_history(base, sc, d, log, stats)
         else:
@@ -356,6 +358,56 @@ def _probes(base: Base, sc, stats):
         lost = set(sc["lost"])
         if (len(W) - 1) not in lost and any(i < len(W) - 3 for i in lost):
             stats["probe_eocd_complete_but_member_write_lost"] = 1
+
+
+def run_shared_dir(base: Base, sc, d, log, stats):
+    """two configurations that differ in exactly one field use the same cache directory, alternately: every request must return
+    the data of *its* configuration, and the directory ends up holding one loadable file per configuration"""
+    S = sc["cfg"]
+    gS = core.stage(st_golden, S, base.knobs)
+    if gS["kind"] != "returned":
+        return core.ok(log, stats={"not_judged_neighbour-generation-failed": 1}, nontrivial=None)
+    fresh = {"R": base.fresh, "S": gS["model"]}
+    cfgs = {"R": base.cfg, "S": S}
+    os.makedirs(d)
+    seen = set()
+    for who in ("R", "S", "R", "S"):
+        out = core.stage(st_request, cfgs[who], base.knobs, d, None, False)
+        log.add("request", who, out["kind"], out.get("exc"))
+        what = f"[shared-dir:{sc.get('field')}] request for configuration {who} ({'first' if who not in seen else 'repeated'})"
+        if out["kind"] == "returned":
+            if out["model"]["mazes"] != fresh[who]["mazes"]:
+                other = "S" if who == "R" else "R"
+                whose = f"the data of the other configuration ({other})" if out["model"]["mazes"] == fresh[other]["mazes"] else "data of neither configuration"
+                return core.violation("C11.cache-entries-collide", f"{what} returned {whose}: two configurations differing in {sc.get('field')} interfere through the shared cache directory", log, stats=stats)
+        elif out["kind"] == "raised":
+            if who not in seen:
+                return core.violation("C11.cache-entries-collide", f"{what} raised {out.get('exc')}: {out.get('msg', '')[:160]} although nothing was ever cached for it in this directory", log, stats=stats)
+            # repeated request: raising conforms only where the same configuration alone in a directory raises too (DESIGN 6.2)
+            cd = d + "-control"
+            os.makedirs(cd)
+            c1 = core.stage(st_request, cfgs[who], base.knobs, cd, None, False)
+            c2 = core.stage(st_request, cfgs[who], base.knobs, cd, None, False)
+            shutil.rmtree(cd, ignore_errors=True)
+            if c2["kind"] != "raised":
+                return core.violation("C11.cache-entries-collide", f"{what} raised {out.get('exc')}: {out.get('msg', '')[:160]}, while the same two requests in a directory of their own succeed", log, stats=stats)
+        else:
+            return core.violation("C11.served-mismatched-config", f"{what}: {out['kind']}", log, stats=stats)
+        seen.add(who)
+    files = sorted(os.listdir(d))
+    if len(files) != 2:
+        return core.violation("C11.cache-entries-collide", f"[shared-dir:{sc.get('field')}] after requests for two different configurations the directory holds {files}", log, stats=stats)
+    got = []
+    for fn in files:
+        rb = core.stage(st_readback, os.path.join(d, fn))
+        if rb["kind"] != "returned":
+            return core.violation("C11.leaves-loadable-file", f"[shared-dir] {fn} does not load: {rb.get('exc')}", log, stats=stats)
+        got.append(rb["model"]["mazes"])
+    if not ((got[0] == fresh["R"]["mazes"] and got[1] == fresh["S"]["mazes"]) or (got[1] == fresh["R"]["mazes"] and got[0] == fresh["S"]["mazes"])):
+        return core.violation("C11.cache-entries-collide", f"[shared-dir:{sc.get('field')}] the two files left behind do not hold the two configurations' datasets", log, stats=stats)
+    shutil.rmtree(d, ignore_errors=True)
+    stats["shared_dir_" + str(sc.get("field"))] = 1
+    return core.ok(log, stats=stats, nontrivial=log.digest())
 
 
 def run_history(base: Base, sc, d, log, stats):
@@ -651,7 +703,10 @@ def scenarios_for(rng: random.Random, R: dict, layout: dict, tier: str) -> list:
         if nW >= m:
             sc.append({"kind": "lost", "lost": sorted(rng.sample(range(nW), m))})
     sc += [{"kind": "empty"}, {"kind": "missing"}, {"kind": "missing-dir"}]
-    sc += foreign_variants(rng, R)
+    fv = foreign_variants(rng, R)
+    sc += fv
+    # the same one-field neighbours, but as *independent users of the same cache directory*
+    sc += [{"kind": "shared-dir", "field": x["field"], "cfg": x["cfg"]} for x in fv if x["kind"] == "foreign"]
     # multi-fault histories
     for _ in range(7 if tier == "quick" else 60):
         steps = []
@@ -695,6 +750,8 @@ def execute_all(pool, rng: random.Random, tier: str, n: int):
             R = _ds.rand_cfgspec(rng, max_n=6 if tier == "thorough" else 5, max_mazes=8, filters=True, rich_endpoints=(i % 2 == 0))
             if i % 2 == 1 and not R["applied_filters"]:
                 R["applied_filters"] = [rng.choice([{"name": "path_length", "args": [rng.randint(1, 3)], "kwargs": {}}, {"name": "start_end_distance", "args": [], "kwargs": {"min_distance": rng.randint(0, 2)}}, {"name": "truncate_count", "args": [rng.randint(2, 6)], "kwargs": {}}])]
+            if i % 3 == 1:  # names with dots (file-name handling must not treat them as extensions)
+                R["name"] = rng.choice(["v1.5", "a.b-c", "run.2024.1", "x."])
             knobs = rand_knobs(rng, R["n_mazes"])
             if i % 3 == 2:  # every third configuration selects the minimal format through a lowered threshold
                 knobs["threshold"] = rng.choice([1, 2, R["n_mazes"]])
